@@ -160,7 +160,7 @@ Section Pass.
 
   (* FortranEngine.solve_t over the module generated from `prog` = solve_t of the class generated from `prog` (same return
      value / exception class, same values, statuses and iteration counts): literal-free program, feasible period (either
-     spelling of t), every option of the lattice with max_iter >= 1, offsets inside the span, finite values along the passes
+     spelling of t), every option of the lattice, offsets inside the span, finite values along the passes
      that run *)
   Theorem solve_t_engines_agree (prog : list eqn) fm d o t s p n m :
     shape n m (vals_of s) -> length (status s) = n -> (0 < m)%nat ->
@@ -168,14 +168,14 @@ Section Pass.
     fm_endo fm = endo_nums d -> fm_lags fm = Z.of_nat (lags d) -> fm_leads fm = Z.of_nat (leads d) ->
     prog_scoped m (Z.of_nat (lags d)) (Z.of_nat (leads d)) prog ->
     py_pos n t = Some p -> feasible d n p = true ->
-    errors o <> EInvalid -> 0 < max_iter o -> min_iter o <= max_iter o ->
+    errors o <> EInvalid -> min_iter o <= max_iter o ->
     (offset o = 0 \/ 0 <= Z.of_nat p + offset o < Z.of_nat n) ->
     let v0 := seeded num zero d o (vals_of s) p in
     all_finite num isfin (get_check num zero d v0 p) = true ->
     run_ok_prog (is_raise (errors o) && catch_first o) prog d o p v0 (Z.to_nat (max_iter o)) 0 ->
     agree num (w_solve_t (f_pass prog) fm d o t s) (solve_t_M (py_hook prog n) no_hook no_hook d o t s).
   Proof.
-    intros Hs Hlen Hm Hchk Hend Hfe Hfl Hfd Hsc Hpos Hfeas Hinv Hmax Hmm Hoff v0 Hf0 Hrun.
+    intros Hs Hlen Hm Hchk Hend Hfe Hfl Hfd Hsc Hpos Hfeas Hinv Hmm Hoff v0 Hf0 Hrun.
     assert (Hshape : forall v, shape n m v -> shape n m (f_pass prog (Z.of_nat p + 1) v)) by (intros v Hv; apply f_pass_shape; exact Hv).
     assert (Hs0 : shape n m v0) by (apply seeded_shape; exact Hs).
     assert (Hf12 : (lags d <= p)%nat /\ (p + leads d < n)%nat).
